@@ -492,7 +492,19 @@ theorem validateAndAdjust_erase {c : ChanState} {p : PulseIn} {r : Option Rat} {
     | error e => simp [hd] at h
     | ok d =>
       simp only [hd, eraseChan_cfg, validateDuration_erase hd] at h ⊢
-      exact h
+      by_cases hres : (d ≠ p.dur ∧ (!p.resizable) = true)
+      · rw [if_pos hres] at h; cases h
+      · rw [if_neg hres] at h ⊢
+        by_cases hdd : d ≠ p.dur
+        · rw [if_pos hdd] at h ⊢
+          cases hv2 : validatePulse c p.sumAdj with
+          | error e => simp [hv2] at h
+          | ok u2 =>
+            cases u2
+            simp only [hv2, validatePulse_erase hv2] at h ⊢
+            exact h
+        · rw [if_neg hdd] at h ⊢
+          exact h
 
 theorem processEomParams_erase {c : ChanState} {e : EomIn} {x : Rat} (h : processEomParams c e = .ok x) :
     processEomParams (eraseChan c) e = .ok x := by
